@@ -299,11 +299,9 @@ func runC17(c *Ctx) {
 // the clamped value itself): otherwise a huge count panics in make although the
 // call is valid.
 func ruleAllocBounded(c *Ctx, pkg string, needSliceParam bool) {
-	floor := 1
-	if !needSliceParam {
-		floor = 0 // no instance on the unchanged tree of that package; the seeded change is the positive example
-	}
-	c.rule("R-ALLOC-BOUNDED", floor, "an allocation sized by a count parameter is reached only after the count has been bounded by a length")
+	// floor 0: when no allocation is sized by a bare count there is nothing to prove (Batches written with
+	// min(n, len(vs))); the seeded changes are the positive examples
+	c.rule("R-ALLOC-BOUNDED", 0, "an allocation sized by a count parameter is reached only after the count has been bounded by a length")
 	for _, fn := range c.P.PkgFuncs(pkg) {
 		hasSlice := false
 		for _, p := range fn.Params {
